@@ -3,6 +3,7 @@ package main
 
 import (
 	"cuelang.org/go/internal/verif/core"
+	_ "cuelang.org/go/internal/verif/h/c01"
 	_ "cuelang.org/go/internal/verif/h/c09"
 )
 
